@@ -14,6 +14,7 @@ REPLAYS = os.path.join(VERIF, 'replays')
 GOENV = dict(os.environ, GOFLAGS='-mod=mod', GOPROXY='off', GOSUMDB='off', GOTOOLCHAIN='local',
              GOARCH='amd64', GOAMD64='v1')
 DRIFT = 0
+NONFINITE = 0   # cases / stages on which the binary64 model itself leaves the finite range: counted, not judged
 WORKERS = int(os.environ.get('VERIF_WORKERS', '6'))
 COQ_WARN = ['-w', '-notation-overridden,-deprecated-hint-without-locality,-deprecated-syntactic-definition,-inexact-float']
 
